@@ -1448,6 +1448,12 @@ func (t *table) gc(now bigtable.Timestamp, done <-chan struct{}, force bool) {
 
 	i := 0
 	t.rows.Ascend(func(r *btpb.Row) bool {
+		// The scan may run over a snapshot taken before the lock was last released
+		// (see below); work on the row as it is now, so that writes acknowledged
+		// in between are not reverted.
+		if r = t.rows.Get(r.Key); r == nil {
+			r = &btpb.Row{}
+		}
 		changed := false
 		for _, fam := range r.Families {
 			gcRule := rules[fam.Name]
